@@ -286,12 +286,17 @@ pub fn view_root(ctx: I18nContext<Locale>) -> ViewH {
             }
             _ => reader!("tu_display!(home.title)", "title[{L}]", move || tu_display!(ctx, home.title).to_string()),
         }),
-        n_scopes: 4,
-        make_scope: Box::new(move |i| match i % 4 {
+        n_scopes: 8,
+        // 4..8: `use_i18n_scoped!` looks the context up itself; the caller runs this inside the owner that provides `ctx`
+        make_scope: Box::new(move |i| match i % 8 {
             0 => handle_common!(scope_i18n!(ctx, common)),
             1 => handle_home!(scope_i18n!(ctx, home)),
             2 => handle_app!(scope_i18n!(ctx, common.app)),
-            _ => handle_deep!(scope_i18n!(ctx, common.app.deep)),
+            3 => handle_deep!(scope_i18n!(ctx, common.app.deep)),
+            4 => handle_common!(use_i18n_scoped!(common)),
+            5 => handle_home!(use_i18n_scoped!(home)),
+            6 => handle_app!(use_i18n_scoped!(common.app)),
+            _ => handle_deep!(use_i18n_scoped!(common.app.deep)),
         }),
     }
 }
